@@ -35,8 +35,8 @@ type encoder struct {
 	lay   []Span
 	ood   bool
 	owner string
-	// registered checksum algorithms
-	reg func(name string) bool
+	// algorithm names the application has removed from the registry at the time of this encode
+	off map[string]bool
 }
 
 // ChecksumRegistered says which algorithm names the harness runtimes register.
@@ -139,7 +139,7 @@ func (e *encoder) packet(path string, pk *RPacket, v *Value) error {
 			e.span(p, "value", f, off)
 		case f.Kind == KChecksum:
 			val := fv.Bits
-			if ChecksumRegistered(f.Algo) {
+			if ChecksumRegistered(f.Algo) && !e.off[f.Algo] {
 				val = Checksum(e.buf, widthOf(f.Type))
 			}
 			e.putInt(val, widthOf(f.Type))
@@ -184,8 +184,11 @@ func (e *encoder) packet(path string, pk *RPacket, v *Value) error {
 }
 
 // Encode is the reference encoder.
-func (r *RProgram) Encode(m *Message) *Encoding {
-	e := &encoder{r: r}
+func (r *RProgram) Encode(m *Message) *Encoding { return r.EncodeWithout(m, nil) }
+
+// EncodeWithout is the reference encoder at a moment when the algorithm names in off are not registered.
+func (r *RProgram) EncodeWithout(m *Message, off map[string]bool) *Encoding {
+	e := &encoder{r: r, off: off}
 	pk := r.Packets[m.Packet]
 	if pk == nil {
 		return &Encoding{Err: "no packet " + m.Packet}
